@@ -95,10 +95,12 @@ const (
 	preCapExact        // finite value whose buffer is exactly 2 words
 	preInexact         // finite value with acc = Above and negative sign
 	preBigDirty        // 40-word buffer full of B−1, now holding a 1-word value
+	preCancelled       // held a 6-word value, then z.Sub(z, z): zero whose mantissa slice is empty but keeps its dirty array
+	preParsedZero      // held a 6-word value, then parsed "0" (and a rejected literal): empty mantissa over a dirty array
 	numPre
 )
 
-var preNames = []string{"fresh", "held-longer", "held-shorter", "+Inf", "-Inf", "-0-dirty", "cap2", "neg-inexact", "big-dirty"}
+var preNames = []string{"fresh", "held-longer", "held-shorter", "+Inf", "-Inf", "-0-dirty", "cap2", "neg-inexact", "big-dirty", "cancelled-to-zero", "parsed-zero"}
 
 func buildPre(kind int, prec uint32, mode uint8) *Dec {
 	z := new(Dec)
@@ -146,6 +148,19 @@ func buildPre(kind int, prec uint32, mode uint8) *Dec {
 			panic("buildPre(preInexact): accuracy is Exact")
 		}
 		return z
+	case preCancelled, preParsedZero:
+		buf := make([]Word, 6, 9)
+		for i := range buf[:9] {
+			buf[:9][i] = Word(BW - 1 - uint64(i))
+		}
+		z.SetPrec(200)
+		z.SetBitsExp(buf, 4)
+		if kind == preCancelled {
+			z.Sub(z, z)
+		} else {
+			z.SetString("0.000")
+			z.SetString("0x") // rejected
+		}
 	case preBigDirty:
 		buf := make([]Word, 40)
 		for i := range buf {
